@@ -65,6 +65,7 @@ func runOnce(w workload, order []int, devs []deviation, crashSnap bool) runResul
 	}
 	point := 0
 	oi := 0
+	advanced := false
 	var crashed []int
 	decide := func(defKind string, alts []string) (string, int) {
 		// record the alternatives at this point, then apply a deviation if one is placed here
@@ -104,6 +105,12 @@ func runOnce(w workload, order []int, devs []deviation, crashSnap bool) runResul
 			}
 			if oi < len(order) {
 				alts = append(alts, "submit:0")
+			}
+			if !advanced && len(rt.CurWorld().PendingTimers()) > 0 {
+				// time passes (10 s of the virtual clock) while a command is still uncommitted: whatever the
+				// node's handlers do on their own timers happens now (offered only when some timer of the
+				// instrumented packages - memdb, resp, util, server - is pending)
+				alts = append(alts, "advance:0")
 			}
 		}
 		def := "end"
@@ -162,6 +169,10 @@ func runOnce(w workload, order []int, devs []deviation, crashSnap bool) runResul
 				res.Events = append(res.Events, fmt.Sprintf("DELIVER-OUT-OF-ORDER(%s->n%d)", s.pool[arg].Type, s.pool[arg].To))
 				s.deliver(arg)
 			}
+		case "advance":
+			res.Events = append(res.Events, "CLOCK+10s")
+			advanced = true
+			s.advanceClock(10 * time.Second)
 		case "campaign":
 			res.Events = append(res.Events, fmt.Sprintf("CAMPAIGN(n%d)", arg+1))
 			s.campaign(arg)
@@ -247,6 +258,11 @@ func check(s *sim, w workload, res *runResult) {
 				op.Out = o.Reply
 			} else {
 				op.Ret = 1 << 60
+			}
+			if o.GaveUp {
+				// the node answered with an error while the command was uncommitted and time passed: the
+				// client was told "not done"; like an unacknowledged command it may still take effect, once
+				op.Pending, op.Out, op.Ret = true, nil, 1<<60
 			}
 			ops = append(ops, op)
 		}
